@@ -705,7 +705,46 @@ fn weak_hashes() -> Vec<Hash32> {
         }
         h
     }
-    vec![("fnv1a-32", fnv1a), ("fnv1-32", fnv1), ("djb2", djb2), ("djb2-xor", djb2x), ("sdbm", sdbm), ("x31", java31), ("adler-32", adler), ("crc-32", crc32), ("murmur3-32", murmur_fin), ("byte-sum", sum), ("byte-xor", xor), ("first-and-last-4-bytes", ends)]
+    // the multiply-rotate hash of rustc / FxHasher, byte by byte and word by word, either half of the 64 bits
+    fn fx64(b: &[u8]) -> u64 { b.iter().fold(0u64, |h, c| (h.rotate_left(5) ^ *c as u64).wrapping_mul(0x517c_c1b7_2722_0a95)) }
+    fn fx_hi(b: &[u8]) -> u32 { (fx64(b) >> 32) as u32 }
+    fn fx_lo(b: &[u8]) -> u32 { fx64(b) as u32 }
+    fn fx32(b: &[u8]) -> u32 { b.iter().fold(0u32, |h, c| (h.rotate_left(5) ^ *c as u32).wrapping_mul(0x9e37_79b9)) }
+    fn fx_words(b: &[u8]) -> u64 {
+        let mut h = 0u64;
+        let mut ch = b.chunks_exact(8);
+        for w in &mut ch {
+            h = (h.rotate_left(5) ^ u64::from_le_bytes([w[0], w[1], w[2], w[3], w[4], w[5], w[6], w[7]])).wrapping_mul(0x517c_c1b7_2722_0a95);
+        }
+        for c in ch.remainder() {
+            h = (h.rotate_left(5) ^ *c as u64).wrapping_mul(0x517c_c1b7_2722_0a95);
+        }
+        h
+    }
+    fn fxw_hi(b: &[u8]) -> u32 { (fx_words(b) >> 32) as u32 }
+    fn fxw_lo(b: &[u8]) -> u32 { fx_words(b) as u32 }
+    // std's DefaultHasher::new() is SipHash-1-3 with an all-zero key: deterministic, and 32 bits of it collide like any 32 bits
+    fn sip(b: &[u8], as_str: bool) -> u64 {
+        use std::hash::Hasher;
+        let mut h = std::collections::hash_map::DefaultHasher::new();
+        h.write(b);
+        if as_str {
+            h.write_u8(0xff);
+        }
+        h.finish()
+    }
+    fn sip_lo(b: &[u8]) -> u32 { sip(b, false) as u32 }
+    fn sip_hi(b: &[u8]) -> u32 { (sip(b, false) >> 32) as u32 }
+    fn sip_str_lo(b: &[u8]) -> u32 { sip(b, true) as u32 }
+    fn sip_str_hi(b: &[u8]) -> u32 { (sip(b, true) >> 32) as u32 }
+    fn fnv64(b: &[u8]) -> u64 { b.iter().fold(0xcbf2_9ce4_8422_2325u64, |h, c| (h ^ *c as u64).wrapping_mul(0x0000_0100_0000_01b3)) }
+    fn fnv64_lo(b: &[u8]) -> u32 { fnv64(b) as u32 }
+    fn fnv64_fold(b: &[u8]) -> u32 { let h = fnv64(b); (h as u32) ^ ((h >> 32) as u32) }
+    let mut v: Vec<Hash32> = vec![("fx-64-high", fx_hi), ("fx-64-low", fx_lo), ("fx-32", fx32), ("fx-words-high", fxw_hi), ("fx-words-low", fxw_lo), ("siphash13-zero-key-low", sip_lo), ("siphash13-zero-key-high", sip_hi),
+                                  ("siphash13-zero-key-str-low", sip_str_lo), ("siphash13-zero-key-str-high", sip_str_hi), ("fnv1a-64-low", fnv64_lo), ("fnv1a-64-folded", fnv64_fold)];
+    let older: Vec<Hash32> = vec![("fnv1a-32", fnv1a), ("fnv1-32", fnv1), ("djb2", djb2), ("djb2-xor", djb2x), ("sdbm", sdbm), ("x31", java31), ("adler-32", adler), ("crc-32", crc32), ("murmur3-32", murmur_fin), ("byte-sum", sum), ("byte-xor", xor), ("first-and-last-4-bytes", ends)];
+    v.extend(older);
+    v
 }
 
 /// Pairs of different decimal literals of equal length that collide under each weak key.
